@@ -1,14 +1,13 @@
 SPECIFICATION Spec
 CONSTANTS
-  Writers <- W2
-  Subs <- S0
+  Writers <- W3
+  Subs <- S1
   Ids <- I1
   MaxV = 6
-  Programs <- ValPrograms
+  Programs <- SubValPrograms
   SubKinds <- Kinds
   InitStores <- ValStores
   PublishAfterUnlock = FALSE
   CreatedRevalidated = TRUE
-VIEW ViewNoHist
-INVARIANTS TypeOK CommitValid EffectOnce LoserCodes
+INVARIANT EmitSched
 CHECK_DEADLOCK FALSE
